@@ -137,14 +137,14 @@ void h_fuzzy_out_buffer(void)
         with exactly one active e-set (index ie, degree 1) and one active ec-set (index iec, degree 1) and the min
         operator every weight is exactly 1, so the derived gains are exactly base + table[ie * nrule + iec] for each
         table that is present, and the base gain for an absent table ---- */
-unsigned verif_mf_calls, verif_mf_pick[2];
+unsigned verif_mf_calls, verif_mf_pick[2], verif_mf_cnt[2]; /* cnt: number of active sets the fuzzifier reports (0 or 1) */
 #ifndef VERIF_NATIVE
 unsigned int contract_a_pid_fuzzy_mf_one(a_real x, unsigned int n, a_real const *a, unsigned int *idx, a_real *val)
     __CPROVER_requires(verif_mf_calls < 2 && verif_mf_pick[0] < n && verif_mf_pick[1] < n)
     __CPROVER_requires(__CPROVER_w_ok(idx, sizeof(unsigned int)) && __CPROVER_w_ok(val, sizeof(a_real)))
     __CPROVER_assigns(*idx, *val, verif_mf_calls)
-    __CPROVER_ensures(__CPROVER_return_value == 1 && *val == 1.0)
-    __CPROVER_ensures(*idx == verif_mf_pick[__CPROVER_old(verif_mf_calls)])
+    __CPROVER_ensures(__CPROVER_return_value == verif_mf_cnt[__CPROVER_old(verif_mf_calls)])
+    __CPROVER_ensures(__CPROVER_return_value == 0 || (*val == 1.0 && *idx == verif_mf_pick[__CPROVER_old(verif_mf_calls)]))
     __CPROVER_ensures(verif_mf_calls == __CPROVER_old(verif_mf_calls) + 1);
 #endif
 void h_fuzzy_out_gain(void)
@@ -152,7 +152,12 @@ void h_fuzzy_out_gain(void)
     a_pid_fuzzy f;
     ND(unsigned, nrule, u32); ND(a_real, e, double); ND(a_real, ec, double); ND(unsigned, ie, u32); ND(unsigned, iec, u32);
     ASSUME(1 <= nrule && nrule <= 4 && ie < nrule && iec < nrule);
-    verif_mf_calls = 0; verif_mf_pick[0] = ie; verif_mf_pick[1] = iec;
+#ifdef NONE /* NONE=0: no active e-set; NONE=1: an active e-set but no active ec-set (concrete counts keep the loops concrete) */
+    unsigned ce = NONE, cec = 0;
+#else
+    unsigned ce = 1, cec = 1;
+#endif
+    verif_mf_calls = 0; verif_mf_pick[0] = ie; verif_mf_pick[1] = iec; verif_mf_cnt[0] = ce; verif_mf_cnt[1] = cec;
     void *blk = malloc(A_PID_FUZZY_BFUZZ(1));
     ASSUME(blk != A_NULL);
     a_pid_fuzzy_set_bfuzz(&f, blk, 1);
@@ -168,6 +173,14 @@ void h_fuzzy_out_gain(void)
     ASSUME(-64 <= bp && bp <= 64 && -64 <= bi && bi <= 64 && -64 <= bd && bd <= 64);
     a_pid_fuzzy_set_kpid(&f, bp, bi, bd);
     a_pid_fuzzy_out_(&f, ec, e);
+    if (!ce || !cec)
+    {
+        /* no active e-set, or no active ec-set: no rule fires, the gains are the base gains (finite, no division by the empty weight sum) */
+        ASSERT(f.pid.kp == (a_real)bp && f.pid.ki == (a_real)bi && f.pid.kd == (a_real)bd, "out_: with no active set for e or for ec no rule fires and the controller runs on its base gains");
+        free(blk);
+        VERIF_CANARY();
+        return;
+    }
     ASSERT(verif_mf_calls == 2, "out_: both inputs are fuzzified");
     ASSERT(f.pid.kp == (hp ? bp + tp[ie * nrule + iec] : (a_real)bp), "out_: Kp is the base gain plus the consequent of the active rule (e-set, ec-set)");
     ASSERT(f.pid.ki == (hi ? bi + ti[ie * nrule + iec] : (a_real)bi), "out_: Ki is the base gain plus the consequent of the active rule, also when the Kp table is absent");
